@@ -7,6 +7,8 @@ pub mod ghidra;
 pub mod graph_utils;
 pub mod log;
 pub mod symbol_utils;
+#[cfg(feature = "verif")]
+pub mod verif;
 
 use crate::prelude::*;
 
